@@ -10,9 +10,11 @@ PID = 'C05'
 SOLUTES = [['nacl'], ['dmso'], ['lipase'], ['nacl', 'dmso'], ['nacl', 'na2so4'], ['nacl', 'lipase']]
 # target amounts of the solutes in a reference mixture (base units: mol, or U for the enzyme)
 TARGET = {'nacl': F(2, 1000), 'dmso': F(3, 100), 'lipase': F(30), 'na2so4': F(1, 2000)}
-SOLVENTS = ['water', 'tea', 'W1', 'W2', 'W3']
+SOLVENTS = ['water', 'tea', 'W1', 'W2', 'W3', 'W4']
 CONTAINERS = {'W1': [('water', '40 mL')], 'W2': [('water', '25 mL'), ('tea', '15 mL')],
-              'W3': [('water', '40 mL'), ('nacl', '1 mmol')]}
+              'W3': [('water', '40 mL'), ('nacl', '1 mmol')],
+              # a solvent container that also holds an enzyme (activity units must not be mistaken for moles)
+              'W4': [('water', '40 mL'), ('lipase', '25 U')]}
 LEVELS = {'dilute': F(30, 1000), 'medium': F(4, 1000), 'just-feasible': F(5, 100000), 'infeasible': F(-1, 1000)}  # L of solvent
 CONC_UNITS = {'solid': ['M', 'mM', 'm', 'mol/L', 'mmol/mL', 'g/L', 'g/mL', 'g/g', 'g/kg', 'mol/mol', 'mL/L', '%w/w', '%w/v',
                         'mg/10 mL', 'umol/10 uL'],
@@ -60,6 +62,15 @@ def specs(vidx):
                     # inconsistent over-determined specification: one quantity off by 1 %
                     yield {'solutes': solutes, 'solvent': solvent, 'level': level, 'mode': 'cq', 'cu': CONC_UNITS[k0][0],
                            'qu': Q_UNITS[k0][0], 'tu': None, 'broadcast': False, 'perturb': True}
+    # two solutes whose concentrations are stated in DIFFERENT unit pairs (same numerator, other denominator, and vice versa)
+    for solutes in (['nacl', 'na2so4'], ['nacl', 'dmso']):
+        for cu, cu2 in (('M', 'm'), ('m', 'M'), ('g/L', 'g/g'), ('mol/L', 'mol/mol'), ('g/g', 'mol/g'), ('%w/v', '%w/w')):
+            for solvent in ('water', 'W1'):
+                for level in ('medium', 'infeasible'):
+                    yield {'solutes': solutes, 'solvent': solvent, 'level': level, 'mode': 'ct', 'cu': cu, 'cu2': cu2,
+                           'qu': None, 'tu': 'mL', 'broadcast': False}
+                    yield {'solutes': solutes, 'solvent': solvent, 'level': level, 'mode': 'cq', 'cu': cu, 'cu2': cu2,
+                           'qu': 'mg', 'tu': None, 'broadcast': False}
     # a unit that cannot measure the solute: must be refused
     for solute, cu in (('nacl', 'U/mL'), ('dmso', 'U/g'), ('lipase', 'M'), ('lipase', 'mol/mol')):
         yield {'solutes': [solute], 'solvent': 'water', 'level': 'medium', 'mode': 'ct', 'cu': cu, 'qu': None, 'tu': 'mL',
@@ -93,7 +104,24 @@ def build_spec(pp, subs, sp):
     rows, rhs = [], []
     if 'c' in sp['mode']:
         mult, num, den = ref.parse_concentration('1 ' + sp['cu'])
-        if sp.get('wrong_kind'):
+        if sp.get('cu2'):
+            # per-solute unit pairs
+            units = [sp['cu'], sp['cu2']]
+            strs, rows_c = [], []
+            for i, (xi, r, cu) in enumerate(zip(x, rsol, units)):
+                _, nu, de = ref.parse_concentration('1 ' + cu)
+                d = tot(de)
+                if d == 0:
+                    return None
+                strs.append(conc_str(xi * ref.per_base(r, nu) / d, cu))
+            kw['concentration'] = strs
+            for i, (sc, cu) in enumerate(zip(strs, units)):
+                c, nu, de = ref.parse_concentration(sc)
+                row = [c * ref.per_base(r, de) for r in rsol] + [c * sol_measure(de)]
+                row[i] -= ref.per_base(rsol[i], nu)
+                rows.append(row)
+                rhs.append(F(0))
+        elif sp.get('wrong_kind'):
             cs = [F(1, 100)] * n
         else:
             if sp['broadcast']:
@@ -106,8 +134,9 @@ def build_spec(pp, subs, sp):
             if d == 0:
                 return None
             cs = [xi * ref.per_base(r, num) / d for xi, r in zip(x, rsol)]
-        strs = [conc_str(c, sp['cu']) for c in cs]
-        kw['concentration'] = strs[0] if (sp['broadcast'] or n == 1) else strs
+        strs = [] if sp.get('cu2') else [conc_str(c, sp['cu']) for c in cs]
+        if not sp.get('cu2'):
+            kw['concentration'] = strs[0] if (sp['broadcast'] or n == 1) else strs
         for i, s in enumerate(strs):
             c, _, _ = ref.parse_concentration(s)
             row = [c * ref.per_base(r, den) for r in rsol] + [c * sol_measure(den)]
@@ -145,8 +174,13 @@ def build_spec(pp, subs, sp):
     return solutes, solvent, kw, rows, rhs
 
 
+def holds_solute(sp):
+    """The solvent container already holds one of the solutes: 'quantity / concentration of the solute' is ambiguous."""
+    return sp['solvent'] in CONTAINERS and any(n in sp['solutes'] for n, _ in CONTAINERS[sp['solvent']])
+
+
 def classify(sp, rows, rhs, solvent_is_container):
-    if sp['solvent'] == 'W3' and ('c' in sp['mode'] or 'q' in sp['mode']):
+    if holds_solute(sp) and ('c' in sp['mode'] or 'q' in sp['mode']):
         return 'dontcare', 'solvent container already holds the solute: stated solute quantity/concentration ambiguous'
     n_unknown = len(rows[0])
     if len(rows) > n_unknown and sp['cu']:
@@ -206,7 +240,7 @@ def run_spec(sp):
         # vacuous (0): such specifications are generated only in the wrong-kind family
         for s in solutes:
             rs = ref.rsub(s)
-            if sp['cu'] and ref.per_base(rs, ref.parse_concentration('1 ' + sp['cu'])[1]) == 0:
+            if sp['cu'] and not sp.get('cu2') and ref.per_base(rs, ref.parse_concentration('1 ' + sp['cu'])[1]) == 0:
                 return [], ('skip',)
             if sp['qu'] and ref.per_base(rs, ref.split_unit(sp['qu'])[1]) == 0:
                 return [], ('skip',)
@@ -250,7 +284,7 @@ def run_spec(sp):
         vs.append(V(f"create_solution | extra-substance | {feat}", f"{call} contains {[s.name for s in set(cont) - allowed]}", case))
     if any(a <= 0 for a in cont.values()) or any(s not in cont for s in solutes):
         vs.append(V(f"create_solution | non-positive-amount | {feat}", f"{call} -> {e1.contents_key(sol, 9)}", case))
-    judge_values = not (sp['solvent'] == 'W3')
+    judge_values = not holds_solute(sp)
 
     # the implementation rounds a parsed concentration to 10^-precision in base units (documented internal precision):
     # a concentration of 1.7e-5 mol/g is only defined to 3e-6 relative, and every derived amount with it
